@@ -232,13 +232,13 @@ def ro_histories(tier, seed):
         pool = base + [("forall", "A", fa), ("forall", "B", fb)]
         # all interleavings of the declarations ...
         perms = [p for p in itertools.permutations(pool) if valid(list(p))]
-        sample = perms if tier != "quick" else rng.sample(perms, min(6, len(perms)))
+        sample = rng.sample(perms, min(6 if tier == "quick" else 24, len(perms)))
         for p in sample:
             fixed.append(list(p))
     # ... with formulations / solves / further declarations inserted in between
     inter = [("do_math",), ("dual",), ("solve",), ("dvar",), ("forall", "A", "pnorm"), ("forall", "A", "box"), ("forall", "B", "ball")]
     for h in list(fixed):
-        for _ in range(2 if tier == "quick" else 6):
+        for _ in range(2 if tier == "quick" else 3):
             hh = list(h)
             for _k in range(rng.randint(1, 3)):
                 ins = rng.choice(inter)
@@ -513,7 +513,7 @@ def jobs(tier):
     seed = int(os.environ.get("VERIF_SEED", "0") or 0)
     hs = ro_histories(tier, seed)
     js = []
-    n = 8
+    n = 8 if tier == "quick" else 48
     for i in range(n):
         js.append({"name": f"ro-histories-{i}", "kind": "ro", "histories": [[list(o) for o in h] for h in hs[i::n]]})
     js += [{"name": "frames", "kind": "frames"}, {"name": "dro-histories", "kind": "dro"}]
